@@ -3,6 +3,7 @@
    program of the same file is co-simulated against the real code on every run. *)
 From Coq Require Import ZArith List Bool.
 From ScV Require Import Base.CInt Gen.Consts C04.AllgatherModel C04.AllgatherProofs.
+From ScV Require Import MPI.Prog MPI.Sem MPI.SemFrame C04.AllgatherSched.
 Import ListNotations.
 Local Open Scope Z_scope.
 
@@ -51,3 +52,63 @@ Print Assumptions C04_threshold_ok.
 Example C04_nonvacuous :
   allgather Z 5 13 (fun i => 100 + i) 12 7 = Some 107 /\ allgather Z 5 13 (fun i => 100 + i) 0 12 = Some 112.
 Proof. split; vm_compute; reflexivity. Qed.
+
+(* ==== from the per-rank programs to the global result, under EVERY message timing =========================
+   The system: rank r (0 <= r < P) runs the per-rank program `allgather_prog amax sz P r (b r)` - the program that
+   is co-simulated against the trace of the real code - in the interleaving semantics of MPI/Sem.v (buffered
+   sends, FIFO channels per (source, destination, tag)); all channels are empty at the start (ag_start).
+   ag_end: every rank r < P has returned the blocks b 0 ++ b 1 ++ ... ++ b (P-1), every channel is empty.
+   For every P > 0, every threshold amax >= 1, every block size sz (zero included) and all block contents:
+   there is n such that  (1) some schedule reaches ag_end in n steps, and for EVERY schedule prefix
+   `run m ag_start s'`:  (2) m <= n and s' can be completed to ag_end in exactly n - m steps (termination, no
+   livelock),  (3) if s' is final it IS ag_end (same result, no message left unreceived),  (4) s' is final or
+   some rank can move (no deadlock). *)
+Theorem C04_every_schedule : forall (amax : Z), 1 <= amax -> forall (sz : nat) (P : Z) (b : Z -> payload),
+  (forall r, 0 <= r < P -> length (b r) = sz) -> 0 < P ->
+  exists n : nat,
+    run n (ag_start amax sz P b) (ag_end P b) /\
+    forall m s', run m (ag_start amax sz P b) s' ->
+      (m <= n)%nat /\ run (n - m) s' (ag_end P b) /\
+      (final s' -> s' = ag_end P b /\ m = n) /\
+      (final s' \/ exists r s'', step s' r s'').
+Proof. exact allgather_all_schedules. Qed.
+Print Assumptions C04_every_schedule.
+
+(* what ag_end is: the result of rank r is the row of rank r of the GLOBAL dataflow model `allgather`
+   (the object of C04_allgather), which is the blocks in rank order *)
+Theorem C04_final_state_is_model : forall amax P (b : Z -> payload), 1 <= amax -> 0 < P ->
+  (forall a d t, ch (ag_end P b) a d t = []) /\
+  forall r, 0 <= r < P ->
+    pr (ag_end P b) r = Ret (model_row amax P b r) /\ model_row amax P b r = slots b 0 (Z.to_nat P).
+Proof. exact ag_end_is_model. Qed.
+Print Assumptions C04_final_state_is_model.
+
+(* the sub-routine for a subgroup (g, base) inside ANY global state: if the members are at
+   ag_prog fuel g base r (buf r) (k r), hold their own block, and the channels inside the group are empty,
+   then the group can be scheduled - nobody else moves, every channel ends as it was - to the point where each
+   member continues with its buffer's slots base .. base+g-1 filled with the group's blocks in rank order *)
+Theorem C04_subgroup_schedule : forall (amax : Z), 1 <= amax -> forall (sz : nat) (P : Z) (b : Z -> payload),
+  (forall r, 0 <= r < P -> length (b r) = sz) ->
+  forall fuel g base (buf : Z -> buffer) (k : Z -> buffer -> prog) s,
+  0 < g -> 0 <= base -> base + g <= P -> (Z.to_nat g <= fuel)%nat ->
+  (forall r, base <= r < base + g -> pr s r = ag_prog amax sz fuel g base r (buf r) (k r)) ->
+  (forall r, base <= r < base + g -> buf r r = b r) ->
+  (forall a d t, base <= a < base + g -> base <= d < base + g -> ch s a d t = []) ->
+  exists n s' (buf' : Z -> buffer), run n s s' /\
+    (forall r, base <= r < base + g ->
+       pr s' r = k r (buf' r) /\ forall i, buf' r i = if inb base g i then b i else buf r i) /\
+    (forall r, ~ (base <= r < base + g) -> pr s' r = pr s r) /\
+    (forall a d t, ch s' a d t = ch s a d t).
+Proof. exact ag_sched. Qed.
+Print Assumptions C04_subgroup_schedule.
+
+(* an instance: 13 ranks, threshold 5 (two recursion levels, odd halves), blocks of two bytes *)
+Example C04_schedule_instance :
+  (exists n, run n (ag_start 5 2 13 (fun r => [r; 100 + r])) (ag_end 13 (fun r => [r; 100 + r]))) /\
+  pr (ag_end 13 (fun r => [r; 100 + r])) 7 =
+    Ret [0; 100; 1; 101; 2; 102; 3; 103; 4; 104; 5; 105; 6; 106; 7; 107; 8; 108; 9; 109; 10; 110; 11; 111; 12; 112].
+Proof.
+  split; [|vm_compute; reflexivity].
+  destruct (allgather_all_schedules 5 ltac:(discriminate) 2 13 (fun r => [r; 100 + r]) ltac:(reflexivity) eq_refl) as [n [H _]].
+  exists n. exact H.
+Qed.
